@@ -107,6 +107,15 @@ func (g *richGen) choice(depth, maxDepth int, mod string) *Node {
 			g.fill(c, maxDepth, maxDepth, mod) // leaves only: most of a schema stays outside choices
 			cs.Children = append(cs.Children, c)
 		}
+		if depth+1 < maxDepth && g.r.Chance(1, 4) {
+			// a list held by a case (a start selection whose schema parent is not its data parent)
+			g.n++
+			l := &Node{Kind: List, Name: g.name("l"), Module: mod}
+			k := &Node{Kind: Leaf, Name: g.name("k"), Type: "string", Module: mod}
+			l.Keys = []string{k.Name}
+			l.Children = append(l.Children, k, g.leaf(mod, RichTypes[g.r.Intn(len(RichTypes))]))
+			cs.Children = append(cs.Children, l)
+		}
 		ch.Children = append(ch.Children, cs)
 	}
 	return ch
@@ -158,6 +167,19 @@ func GenerateRich(r *kit.Rng, name string, maxNodes, maxDepth int) *Node {
 	gc := &Node{Kind: Container, Name: g.name("c"), Module: "g"}
 	gc.Children = append(gc.Children, g.leaf("g", "identityref"), g.leaf("g", "string"), g.leaf("", "identityref"), g.leaf("", "int32"))
 	m.Children = append(m.Children, gc)
+	// a top-level choice in every schema: one case holds a list, one a leaf and a container
+	tch := &Node{Kind: Choice, Name: g.name("ch")}
+	tl := &Node{Kind: List, Name: g.name("l")}
+	tk := &Node{Kind: Leaf, Name: g.name("k"), Type: "string"}
+	tl.Keys = []string{tk.Name}
+	tl.Children = append(tl.Children, tk, g.leaf("", "int32"), g.leaf("", "string"))
+	tc := &Node{Kind: Container, Name: g.name("c")}
+	tc.Children = append(tc.Children, g.leaf("", "string"), g.leaf("", "enum"))
+	tch.Children = append(tch.Children,
+		&Node{Kind: Case, Name: g.name("cs"), Children: []*Node{tl}},
+		&Node{Kind: Case, Name: g.name("cs"), Children: []*Node{g.leaf("", "boolean"), tc}})
+	g.n += 4
+	m.Children = append(m.Children, tch)
 	g.fill(m, 0, maxDepth, "")
 	m.Link()
 	return m
